@@ -142,6 +142,8 @@ fn r_code(c: &SCode, m: &Map) -> SCode {
 		visible_type: c.visible_type.iter().map(|x| r_type_annotation(x, m)).collect(),
 		invisible_type: c.invisible_type.iter().map(|x| r_type_annotation(x, m)).collect(),
 		unknown: c.unknown.clone(),
+		empty_local_table: c.empty_local_table,
+		empty_line_table: c.empty_line_table,
 	}
 }
 
